@@ -45,6 +45,11 @@ fn zeroize_state_map(ctx: &mut Ctx) {
     let probes: Vec<Op> = (0..5).map(|_| mk.gen_op(ctx)).collect();
     ctx.note("iv_a", J::s(hex_short(&iv_a)));
     ctx.note("iv_b", J::s(hex_short(&iv_b)));
+    // half of the histories look at the storage the way the allocator gets it back
+    let freed = ctx.rng.coin();
+    ctx.note("observed", J::s(if freed { "at dealloc (ordinary drop of the Box)" } else { "between drop_in_place and dealloc" }));
+    ctx.st.count(if freed { "zeroize.state-map.observed-at-dealloc" } else { "zeroize.state-map.observed-before-dealloc" });
+    set_drop_scan_freed(freed);
     let r = guard(|| {
         let mut a = mk.make(&key, &iv_a);
         let mut bo = mk.make(&key, &iv_b);
@@ -66,6 +71,7 @@ fn zeroize_state_map(ctx: &mut Ctx) {
         };
         (scan(a), scan(bo), pos_a)
     });
+    set_drop_scan_freed(false);
     ctx.st.api_calls += (ops_a.len() + ops_b.len() + 2) as u64;
     let (sa, sb, pos_a) = match r {
         Ok(v) => v,
@@ -168,7 +174,7 @@ impl Mk {
             Mk::Blk(d) => {
                 let n = rng.range(0, 2 * w + 1);
                 let n = if d.bs == 1 { rng.range(0, 2 * b + 1) } else { n };
-                Op::Blk(wl::any_bkind(rng), rng.bytes((n * d.bs).min(2048)))
+                Op::Blk(wl::any_bkind(rng), rng.bytes(n.min((2048 / d.bs.max(1)).max(1)) * d.bs))
             }
             Mk::Buf(_) => {
                 let n = rng.range(0, 3 * b);
@@ -418,6 +424,10 @@ fn zeroize(ctx: &mut Ctx) {
     let ops: Vec<Op> = (0..nops).map(|_| mk.gen_op(ctx)).collect();
     ctx.note("iv", J::s(hex_short(&iv)));
     ctx.note("ops", J::i(nops as i64));
+    let freed = ctx.rng.coin();
+    ctx.note("observed", J::s(if freed { "at dealloc (ordinary drop of the Box)" } else { "between drop_in_place and dealloc" }));
+    ctx.st.count(if freed { "zeroize.observed-at-dealloc" } else { "zeroize.observed-before-dealloc" });
+    set_drop_scan_freed(freed);
     let rc = &ctx.rc;
     let r = guard(|| {
         let mut o = mk.make(&key, &iv);
@@ -505,6 +515,7 @@ fn zeroize(ctx: &mut Ctx) {
         }
         (needles.len(), before, after, scan.before.len())
     });
+    set_drop_scan_freed(false);
     let probes: Vec<Op> = (0..5).map(|_| mk.gen_op(ctx)).collect();
     ctx.st.api_calls += 2 * nops as u64 + 4;
     match r {
